@@ -62,6 +62,10 @@ def shape_tags(src, opts):
             tags.append("skip-before-keyword")      # F-F11
             break
     if src.startswith("\n") or src.startswith("\r\n") or src.startswith(" \n"): tags.append("leading-blank")
+    for i in range(len(lines) - 1):
+        if re.search(r"\S.*#(?!-)[^'\"]*$", lines[i]) and re.match(r"\s*[)\]}]\s*\S", lines[i + 1]):
+            tags.append("comment-before-closer")     # F-F12: a line comment, then a closing bracket followed by more code
+            break
     def trivia(l):
         t = l.strip()
         return not t or t.startswith("#")
